@@ -3171,12 +3171,18 @@ def search(ctx, broken):
     for rec in _api_cases(random.Random(ctx.seed + 29), ctx.n(288, 2304) * mult):
         ctx.stats.case('oracle:api:' + rec['kind'], rec['line'])
         _api_clauses(ctx, rec)
+    # cells given by their bounds (set_hi_los): the three ways a user reaches it
+    hrng = random.Random(ctx.seed + 47)
+    for it in range(ctx.n(90, 600) * mult):
+        args = _hilo_args(hrng)
+        ctx.stats.case('oracle:hilo', ('hilo', it % 3) + tuple(args), nontrivial=any(args[6:]))
+        _hilo_clauses(ctx, args, it % 3)
     ctx.extra['bound_used'] = {k: round(v, 4) for k, v in sorted(MARGIN.items())}
 
 
 def replay(ctx, payload):
     r = payload.get('replay') or {}
-    cases = [r] if (r.get('case') or r.get('hist') or r.get('big') or r.get('op') in ('defaults', 'api')) else \
+    cases = [r] if (r.get('case') or r.get('hist') or r.get('big') or r.get('op') in ('defaults', 'api', 'hilo')) else \
         [d for d in payload.get('disagreements', []) if d and (d.get('case') or d.get('hist'))]
     if not cases:
         search(ctx, True)
@@ -3190,6 +3196,10 @@ def replay(ctx, payload):
                 _corr_hist(ctx, [{'case': h['case'], 'ops': h['ops']}])
                 for d in ctx.disagreements:
                     print('replay: model/implementation disagree:', d.what)
+            continue
+        if r.get('op') == 'hilo':
+            _hilo_clauses(ctx, r['args'], r.get('how', 0))
+            print('replay box bounds', r['args'], '->', [v.what for v in ctx.violations] or 'all clauses hold')
             continue
         if r.get('op') == 'api':
             rec = dict(r['api'])
@@ -3485,6 +3495,62 @@ def _corr_copyvals(ctx, rng, n):
                          f'{got}, model {model} (input keys {keys})', {'op': 'norm', 'case': case})
 
 
+def _hilo_args(rng):
+    """xlo xhi ylo yhi zlo zhi xy xz yz: dyadic (so hi - lo is exact), at several magnitudes; 15 %: one pair of bounds equal or
+    in the wrong order; tilt factors 0, ordinary, or 2^-28 .. 2^-40 of the scale (around the 1e-9 clean-up of the setter)."""
+    sc = 2.0 ** rng.choice((0, 0, 0, 7, -9, 40, -40))
+    lo = [cm.dyadic(rng, -8, 8, 3) * sc for _ in range(3)]
+    ln = [cm.dyadic(rng, 0.125, 8, 3) * sc for _ in range(3)]
+    if rng.random() < 0.15:
+        ln[rng.randrange(3)] *= rng.choice((0.0, -1.0))
+    hi = [a + b for a, b in zip(lo, ln)]
+    tilt = [rng.choice((0.0, cm.dyadic(rng, -8, 8, 3) * sc, sc * 2.0 ** -rng.choice((28, 29, 30, 31, 33, 40)),
+                        -sc * 2.0 ** -rng.choice((29, 30, 35)))) for _ in range(3)]
+    return [lo[0], hi[0], lo[1], hi[1], lo[2], hi[2]] + tilt
+
+
+def _hilo_clauses(ctx, args, how=0):
+    """`Box(xlo=…)` / `system.box_set(xlo=…)` decided without the model: bounds in the wrong order (or equal) must be refused
+    (assertion of set_lengths) and leave the object alone; otherwise the cell is EXACTLY [[hi-lo, 0, 0], [xy, ., 0], [xz, yz, .]]
+    at the lo corner, except that a component of magnitude <= 1e-9 (1 + 1e-6) of the largest may have been set to 0."""
+    import numpy as np
+    import atomman as am
+    xlo, xhi, ylo, yhi, zlo, zhi, xy, xz, yz = [F(float(x)) for x in args]
+    kw = dict(xlo=args[0], xhi=args[1], ylo=args[2], yhi=args[3], zlo=args[4], zhi=args[5], xy=args[6], xz=args[7], yz=args[8])
+    label = ', '.join(f'{k}={v!r}' for k, v in kw.items())
+    replay = {'op': 'hilo', 'args': [float(x) for x in args], 'how': how}
+    valid = xhi > xlo and yhi > ylo and zhi > zlo
+    system = None
+    try:
+        if how == 0:
+            bx = am.Box(**kw)
+        else:
+            system = am.System(atoms=am.Atoms(pos=[[0.25, 0.5, 0.75]]), box=am.Box(), pbc=(True, True, True))
+            before = (system.box.vects.copy(), system.box.origin.copy(), system.atoms.pos.copy())
+            system.box_set(scale=(how == 2), **kw)
+            bx = system.box
+    except Exception as e:  # noqa
+        if valid:
+            ctx.violate('boxset:raises', f'Box bounds {label} are valid but refused ({type(e).__name__}: {e})', replay)
+        elif system is not None and not (np.array_equal(system.box.vects, before[0]) and np.array_equal(system.box.origin, before[1])
+                                         and np.array_equal(system.atoms.pos, before[2])):
+            ctx.violate('refusal:hilo-bounds-state', f'box_set({label}) was refused but the system changed', replay)
+        return
+    if not valid:
+        ctx.violate('refusal:hilo-bounds', f'box bounds in the wrong order / equal ({label}) were accepted: cell '
+                    f'{np.asarray(bx.vects).tolist()} origin {np.asarray(bx.origin).tolist()} (set_lengths documents lx, ly, lz > 0)', replay)
+        return
+    want = [[xhi - xlo, 0, 0], [xy, yhi - ylo, 0], [xz, yz, zhi - zlo]]
+    big = max(abs(x) for row in want for x in row)
+    got = [[F(float(x)) for x in row] for row in np.asarray(bx.vects)]
+    bad = [(i, j) for i in range(3) for j in range(3)
+           if got[i][j] != want[i][j] and not (got[i][j] == 0 and abs(want[i][j]) <= big * F(1000001, 10 ** 15))]
+    org = [F(float(x)) for x in np.asarray(bx.origin)]
+    if bad or org != [xlo, ylo, zlo]:
+        ctx.violate('boxset:box', f'{label}: the cell is {np.asarray(bx.vects).tolist()} at {np.asarray(bx.origin).tolist()}, asked for '
+                    f'{[[float(x) for x in r] for r in want]} at {[float(xlo), float(ylo), float(zlo)]}', replay)
+
+
 def _corr_hilo(ctx, rng, n):
     """`Box(xlo=…, …, yz=…)` (set_hi_los -> set_lengths -> vects setter) vs the generated formulas run by the driver op `hilobox`;
     dyadic bounds (differences exact), tilt factors incl. 0, tiny ones the setter's clean-up removes, and non-positive lengths
@@ -3493,15 +3559,7 @@ def _corr_hilo(ctx, rng, n):
     import atomman as am
     lines, wants = [], []
     for it in range(n):
-        sc = 2.0 ** rng.choice((0, 0, 0, 7, -9, 40, -40))
-        lo = [cm.dyadic(rng, -8, 8, 3) * sc for _ in range(3)]
-        ln = [cm.dyadic(rng, 0.125, 8, 3) * sc for _ in range(3)]
-        if rng.random() < 0.15:
-            ln[rng.randrange(3)] *= rng.choice((0.0, -1.0))
-        hi = [a + b for a, b in zip(lo, ln)]
-        tilt = [rng.choice((0.0, cm.dyadic(rng, -8, 8, 3) * sc, sc * 2.0 ** -rng.choice((28, 29, 30, 31, 33, 40)),
-                            -sc * 2.0 ** -rng.choice((29, 30, 35)))) for _ in range(3)]
-        args = [lo[0], hi[0], lo[1], hi[1], lo[2], hi[2]] + tilt
+        args = _hilo_args(rng)
         try:
             bx = am.Box(xlo=args[0], xhi=args[1], ylo=args[2], yhi=args[3], zlo=args[4], zhi=args[5],
                         xy=args[6], xz=args[7], yz=args[8])
